@@ -165,3 +165,18 @@ func (rs *Requested) VerifSnapshot() []VerifRequestedPiece {
 	sort.Slice(out, func(i, j int) bool { return out[i].Index < out[j].Index })
 	return out
 }
+
+// VerifReaderRequest is one piece a Reader has asked for and not withdrawn.
+type VerifReaderRequest struct {
+	Index uint32
+	Prio  int8
+}
+
+// VerifRequested returns the pieces the reader currently holds requests for.
+func (r *Reader) VerifRequested() []VerifReaderRequest {
+	var out []VerifReaderRequest
+	for _, c := range r.requested {
+		out = append(out, VerifReaderRequest{c.index, c.prio})
+	}
+	return out
+}
